@@ -20,7 +20,12 @@ RULE = ("cases drawn from one PRNG (VERIF_SEED), one fresh file each; files hold
         "getdatastrs/getrange and SDgetdimscale/getdatastrs/getrange; SD files hold several record variables with "
         "different record counts; GR files mix images without a raster-image group (other types, 2/4 components) with "
         "8/24-bit ones; counts (DFSDndatasets, DFR8nimages, DF24nimages, DFPnpals, SD/GR file info) are compared; "
-        "(sds) 1-4 datasets of rank 1-4, extents 1-5, "
+        "dimensions also carry label/unit/format strings (DFSDsetdimstrs / SDsetdimstrs) and, for SD, user names drawn "
+        "from a pool in which several names are proper prefixes of others (lat, lat_bnds, x, x1, x10 ...); some files hold "
+        "more than ten dimension variables (fakeDim1 vs fakeDim10 ...); every DFSD read is repeated into a caller's array "
+        "that is larger than the dataset by 0-3 in each dimension, through DFSDgetdata(maxsizes) | DFSDgetslice | "
+        "DFSDreadslab, and every DFR8getimage into a larger xdim/ydim: same values at the array's strides, rest untouched; "
+        "(sds) 1-6 datasets of rank 1-4, extents 1-5, "
         "every 8/16/32-bit integer, char and float32/64 type in standard, little-endian and native flavour, optional "
         "unlimited first dimension, written by DFSDadddata | SDcreate+SDwritedata | nccreate/ncdimdef/ncvardef/ncvarput "
         "and read by DFSDgetdims/getNT/getdata, SDgetinfo/SDreaddata, ncvarinq/ncvarget, the Vgroup/Vdata records "
@@ -755,7 +760,10 @@ def run(ctx):
              "values_compared": 0, "number_types": {}, "interlace_pairs": {}, "compressions": {},
              "metadata_lines_compared": 0, "datasets_with_scales_on_a_proper_subset": 0, "scale_after_unscaled_dimension": 0,
              "files_with_differing_record_counts": 0, "later_metadata_sessions": 0, "foreign_objects_first": 0,
-             "gr_files_with_group_less_image_before_group_image": 0, "objects_per_file": {}}
+             "gr_files_with_group_less_image_before_group_image": 0, "objects_per_file": {},
+             "dimensions_with_strings": 0, "named_dimensions": 0, "files_with_prefix_related_dimension_names": 0,
+             "files_with_more_than_ten_dimension_variables": 0, "reads_into_larger_array": {"DFSDgetdata": 0, "DFSDgetslice": 0,
+             "DFSDreadslab": 0, "DFR8getimage": 0}, "larger_in_non_leading_dimension": 0}
     nviol = 0
     for cid, c in cases:
         R, S = Rd.get(cid, []), Sd.get(cid, [])
@@ -777,6 +785,20 @@ def run(ctx):
             rig = [(o["nt"] == 21 and o["nc"] in (1, 3)) for o in c["objs"]]
             if any((not a) and any(rig[i + 1:]) for i, a in enumerate(rig)):
                 stats["gr_files_with_group_less_image_before_group_image"] += 1
+        if k == "sds":
+            nm = ["".join(map(chr, x)) for o in c["objs"] for x in o.get("dnames", []) if x]
+            stats["named_dimensions"] += len(nm)
+            stats["dimensions_with_strings"] += sum(1 for o in c["objs"] for x in o.get("dstrs", []) if x)
+            if any(a != b and b.startswith(a) for a in nm for b in nm):
+                stats["files_with_prefix_related_dimension_names"] += 1
+            if sum(1 for o in c["objs"] for i in range(len(o["dims"])) if o["scales"][i] or o["dstrs"][i] or c["w"] == "dfsd") > 10:
+                stats["files_with_more_than_ten_dimension_variables"] += 1
+            if c.get("pad"):
+                stats["reads_into_larger_array"][("DFSDgetdata", "DFSDgetslice", "DFSDreadslab", "DFSDgetdata")[(c["pad"] >> 12) & 3]] += 1
+                if any(((c["pad"] >> (2 * i)) & 3) and i < len(o["dims"]) for o in c["objs"] for i in range(1, 4)):
+                    stats["larger_in_non_leading_dimension"] += 1
+        if k == "img" and c.get("pad"):
+            stats["reads_into_larger_array"]["DFR8getimage"] += 1
         stats["metadata_lines_compared"] += sum(1 for l in R if l.startswith(("sdmeta ", "dfsdmeta ")))
         for o in c.get("objs", []):
             if k in ("sds", "rawsds") and o.get("scales"):
